@@ -94,6 +94,7 @@ let judges : (string * (Gsext.sx -> Gsext.verdict)) list = [
   "parse", Gsext.judge_parse;
   "amostruct", Gsext.judge_amo_struct;
   "tracepb", Gsext.judge_trace_pb;
+  "goir", Gsext.judge_goir;
 ]
 
 let () =
